@@ -262,6 +262,13 @@ def gen_cases(ctx, scale=1.0):
     n_random = int(ctx.pick(200, 5000) * scale)
     for _ in range(n_random):
         cases.append(gen_case(rng, tier_big=ctx.thorough()))
+    # a second session looks at the file (MLST) in the middle of the transfer
+    for backend in ("memory", "pathio"):
+        for bs in (2, 7, 64):
+            for _ in range(ctx.pick(3, 20)):
+                c = gen_case(rng, force={"backend": backend, "bs": bs})
+                c["bystander"] = True
+                cases.append(c)
     return cases
 
 
@@ -441,7 +448,15 @@ async def _run_case(loop, case):
             # dropped by the next PASV/EPSV) are not this transfer's: their close is not an event of its worker
             closed_data |= set(server_data)
             try:
-                await asyncio.wait_for(_do_op(a, op, path, o), 36000)
+                by = None
+                if case.get("bystander"):
+                    async def by(b=b, path=path):
+                        try:
+                            await asyncio.wait_for(b.stat(path), 600)  # MLST on the control channel: no data connection of its own
+                        except (aioftp.StatusCodeError, asyncio.TimeoutError):
+                            pass
+
+                await asyncio.wait_for(_do_op(a, op, path, o, by), 36000)
             except aioftp.StatusCodeError as e:
                 o["status"] = ",".join(str(c) for c in e.received_codes)
             except asyncio.TimeoutError:
@@ -489,7 +504,16 @@ async def _run_case(loop, case):
     return obs
 
 
-async def _do_op(a, op, path, o):
+async def _do_op(a, op, path, o, bystander=None):
+    """`bystander`: a coroutine function called once in the middle of the transfer (another session looking at
+    the same file: MLST / LIST): it must not change what is transferred"""
+
+    async def look():
+        nonlocal bystander
+        if bystander is not None:
+            f, bystander = bystander, None
+            await f()
+
     if op["op"] == "up":
         payload = bytes.fromhex(op["payload"])
         if op["api"] == "upload":
@@ -504,6 +528,8 @@ async def _do_op(a, op, path, o):
             for n in op["writes"]:
                 await stream.write(payload[i : i + n])
                 i += n
+                if i:
+                    await look()
             if i < len(payload):
                 await stream.write(payload[i:])
     else:
@@ -521,6 +547,7 @@ async def _do_op(a, op, path, o):
                 else:
                     async for block in stream.iter_by_block(op["read"]):
                         got.append(block)
+                        await look()
             o["client_sizes"] = [len(x) for x in got if x]
         o["data"] = b"".join(got)
 
